@@ -27,7 +27,12 @@ FUNCS = R.FUNCS + [
 ]
 
 
-def job_src(tid, src, cfg, evm="cancun", scale=1):
+PAYLOAD_BOUND = 192
+
+
+def job_src(tid, src, cfg, evm="cancun", scale=1, light=False):
+    """light=True: only the accept/revert decision and the payload lengths are decided (which inputs succeed, which revert);
+    the byte contents and the final state of the successful paths are left to the thorough tier"""
     from vverif import spec_source as SS
 
     obs = []
@@ -36,7 +41,8 @@ def job_src(tid, src, cfg, evm="cancun", scale=1):
     env = Mx.Env()
     env.reentrancy_havoc = True  # persistent state after an outgoing (non-static) call is arbitrary: the callee may re-enter
     try:
-        spec = SS.Interp(src, T.settings_for(cfg, evm), env).run_contract()
+        interp = SS.Interp(src, T.settings_for(cfg, evm), env)
+        spec = interp.run_contract()
     except SS.Unsupported as e:
         obs.append({"clause": "spec", "status": "unknown", "backend": "engine", "seconds": 0, "model": None, "note": "outside the reference semantics: " + str(e), "replay": replay})
         return number(obs)
@@ -54,22 +60,53 @@ def job_src(tid, src, cfg, evm="cancun", scale=1):
         for d in s.defs:
             if not any(d is x for x in defs):
                 defs.append(d)
-    hyps = list(env.assumptions) + defs
-    r = prove(z3.Or(*[s.pc for s in spec]), timeout_ms=timeout)
+    # calldata longer than 2**32 bytes cannot exist (gas); without the bound, byte strings placed at the very top of a 2**256-byte
+    # calldata would have to be specified too
+    hyps = list(env.assumptions) + defs + [z3.ULT(env.calldatasize, BV(2**32))] + list(interp.invariants)
+    r = prove(z3.Or(*[s.pc for s in spec if not getattr(s, "optional", False)]), timeout_ms=timeout)
     if r["status"] != "proved":
         obs.append({"clause": "spec-total", "status": "unknown", "backend": "engine", "seconds": r["seconds"], "model": None, "note": "reference semantics not total on this program (interpreter defect)", "replay": replay})
         return number(obs)
     discharge(obs, "paths-exhaustive", z3.Or(*[o.pc for o in outs]), hyps=list(env.assumptions), timeout_ms=timeout, replay=replay)
+    # lemma step (checked): case split on bounds-checked indices of the source program (exhaustiveness is proved under the
+    # premise of each obligation, so a wrong hint cannot make a false goal pass)
+    hint_cases = None
+    hs = interp.split_hints[:2]
+    if hs:
+        import itertools as _it
+
+        if len(hs) == 2 and hs[0][1] * hs[1][1] <= 64:
+            hint_cases = [z3.And(hs[0][0] == BV(a), hs[1][0] == BV(b)) for a, b in _it.product(range(hs[0][1]), range(hs[1][1]))]
+        else:
+            hint_cases = [hs[0][0] == BV(a) for a in range(hs[0][1])]
     for o in outs:
-        cands = []
-        for s in spec:
-            if R.success(o) != R.success(s):
+        compat = [s for s in spec if R.success(s) == R.success(o)]
+        # (1) the source semantics has an outcome of the same class under this path's condition
+        discharge(obs, f"source-has-outcome-of-this-class[{o.status}]", z3.Implies(o.pc, z3.Or(*[s.pc for s in compat]) if compat else z3.BoolVal(False)), hyps=hyps,
+                  timeout_ms=timeout, replay=dict(replay, path=R.describe(o)), eval_terms=terms)
+        # payload lengths: when every payload of this path (return/revert data, log data, call data) is provably short, the
+        # byte comparison is done at concrete positions (the bound is itself an obligation)
+        lens = [R.data_of(o)[0]] + [e[2]["len"] for e in R.visible(o.world.trace) if e[0] == "log"] + [e[4]["len"] for e in R.visible(o.world.trace) if e[0] in ("call", "staticcall", "delegatecall")]
+        short = all(prove(z3.Implies(o.pc, z3.ULE(l, BV(PAYLOAD_BOUND))), hyps, timeout_ms=3000, use_cvc5=False, nl_abstraction=False)["status"] == "proved" for l in lens)
+        # (2) every mandatory source outcome that can hold together with this path is observationally equal to it
+        for s in compat:
+            if getattr(s, "optional", False):
                 continue
-            if not feasible(z3.And(o.pc, s.pc), 1500):
+            both = z3.And(o.pc, s.pc)
+            if not feasible(both, 1500):
                 continue
-            cands.append(z3.And(s.pc, R.same_outcome(o, s, idx, regions)))
-        goal = z3.Implies(o.pc, z3.Or(*cands) if cands else z3.BoolVal(False))
-        discharge(obs, f"bytecode-path-agrees-with-source[{o.status}]", goal, hyps=hyps, timeout_ms=timeout, replay=dict(replay, path=R.describe(o)), eval_terms=terms)
+            parts = R.outcome_parts(o, s, idx, regions, PAYLOAD_BOUND if short else 0)
+            if parts is None:
+                discharge(obs, f"bytecode-path-agrees-with-source[{o.status}]:shape", z3.Not(both), hyps=hyps, timeout_ms=timeout, replay=dict(replay, path=R.describe(o)), eval_terms=terms)
+                continue
+            for nm, f in parts:
+                if light and not nm.endswith(":length"):
+                    continue
+                f = z3.simplify(f)
+                if z3.is_true(f):
+                    continue
+                discharge(obs, f"bytecode-path-agrees-with-source[{o.status}]:{nm}", z3.Implies(both, f), hyps=hyps, timeout_ms=timeout, replay=dict(replay, path=R.describe(o)), eval_terms=terms,
+                          cases=hint_cases if R.success(o) else None)
     fact(obs, "spec-has-success-path", any(R.success(s) for s in spec), replay=dict(replay, static=True))
     return number(obs)
 
